@@ -135,6 +135,32 @@ def step (s : RSt) (toks : List String) : RSt × String :=
           ({ s with pool := some r.1.pool, peers := r.1.peers }, s!"{outcomeStr r.2.1} {rs}")
       | none => (s, "bad-op")
     | _, _, _, _, _, _, _, _ => (s, "bad-op")
+  | ["cput", hash, g] =>
+    -- g concurrent Put calls with the same hash: Put is atomic (mutex), so the calls are
+    -- serialised in some order: the first decides, the others find the hash
+    match s.pool, hash.toNat?, g.toNat? with
+    | some p, some hv, some gn =>
+      if hv ≥ 2 ^ 64 ∨ gn = 0 ∨ gn > 64 then (s, "bad-op")
+      else
+        let r := put p (UInt64.ofNat hv)
+        let r2 := (List.range (gn - 1)).foldl (fun (acc : Pool × Nat) _ =>
+          let q := put acc.1 (UInt64.ofNat hv)
+          (q.1, acc.2 + (if q.2 then 1 else 0))) (r.1, if r.2 then 1 else 0)
+        ({ s with pool := some r2.1 }, s!"accepted {r2.2}")
+    | _, _, _ => (s, "bad-op")
+  | ["conc", g, src, hash] =>
+    match s.pool, g.toNat?, src.toNat?, hash.toNat? with
+    | some p, some gn, some sr, some hv =>
+      if hv ≥ 2 ^ 64 ∨ hv = 0 ∨ gn = 0 ∨ gn > 64 ∨ sr = 0 ∨ sr ≥ 65536 then (s, "bad-op")
+      else
+        let r := (List.range gn).foldl (fun (acc : Pool × Nat) i =>
+          let e : Ev := { peerHasProto := true, connNone := false, self := idBytes 0,
+                          peerId := [0xcc, UInt8.ofNat (i + 1), 0], peerRole := 0, src := idBytes sr,
+                          dest := destAny, ttl := 0, hasCb := true, hash := UInt64.ofNat hv }
+          let q := onPacketFull acc.1 e
+          (q.1, acc.2 + (if q.2 = .deliver then 1 else 0))) (p, 0)
+        ({ s with pool := some r.1 }, s!"delivered {r.2}")
+    | _, _, _, _ => (s, "bad-op")
   | ["cpkt", hp, ver, sub] =>
     match s.pool, bool? hp, ver.toNat?, sub.toNat? with
     | some p, some h, some v, some sb =>
